@@ -441,6 +441,12 @@ func genExtracted(b *strings.Builder, root, authp, httpio *pkg) {
 	w("Definition reverse_formatter_read_per_connection : bool := %s.", coqBool(reverseFormatterReadPerConnection(root)))
 	w("(* the redial goroutine installs the keepalive handlers on the connection it has just swapped in *)")
 	w("Definition redial_sets_up_pings_after_swap : bool := %s.", coqBool(assignBeforeCallDeep(root, "tryReconnect", "c.conn", "c.setupPings")))
+	w("(* package-level variables of the root package, and every place a function changes one: connections and calls share no mutable package state *)")
+	{
+		pv, pm := packageVars(root)
+		w("Definition package_vars : list string := %s.", strList(pv))
+		w("Definition package_state_mutations : list string := %s.", strList(pm))
+	}
 	w("(* control, synchronisation and shared-state skeletons of the functions the state-machine models are written against *)")
 	for _, f := range [][2]string{{"wsConn", "handleResponse"}, {"wsConn", "closeInFlight"}, {"wsConn", "closeChans"}, {"wsConn", "handleCall"},
 		{"wsConn", "cancelCtx"}, {"wsConn", "handleCtxAsync"}, {"wsConn", "handleChanMessage"}, {"wsConn", "handleChanClose"},
@@ -1676,4 +1682,111 @@ func effectSkeleton(p *pkg, recv, fn string) []string {
 		return true
 	})
 	return out
+}
+
+// packageVars: the package-level variables of the package (name and type / initialiser shape), sorted; and every place a
+// function body changes one of them (assignment, indexed store, ++/--, delete, address taken), as "func: what"
+func packageVars(p *pkg) (vars []string, muts []string) {
+	names := map[string]bool{}
+	for _, fn := range p.sortedFiles() {
+		for _, d := range p.files[fn].Decls {
+			gd, ok := d.(*ast.GenDecl)
+			if !ok || gd.Tok.String() != "var" {
+				continue
+			}
+			for _, sp := range gd.Specs {
+				vs := sp.(*ast.ValueSpec)
+				for i, n := range vs.Names {
+					if n.Name == "_" {
+						continue
+					}
+					kind := ""
+					var te ast.Expr = vs.Type
+					if te == nil && i < len(vs.Values) {
+						switch v := vs.Values[i].(type) {
+						case *ast.CompositeLit:
+							te = v.Type
+						case *ast.CallExpr:
+							if exprString2(v.Fun) == "make" && len(v.Args) > 0 {
+								te = v.Args[0]
+							}
+						}
+					}
+					switch tt := te.(type) {
+					case *ast.MapType:
+						kind = " (map)"
+					case *ast.ChanType:
+						kind = " (chan)"
+					case *ast.ArrayType:
+						if tt.Len == nil {
+							kind = " (slice)"
+						}
+					}
+					vars = append(vars, n.Name+kind)
+					names[n.Name] = true
+				}
+			}
+		}
+	}
+	sort.Strings(vars)
+	root := func(e ast.Expr) string {
+		for {
+			switch x := e.(type) {
+			case *ast.Ident:
+				return x.Name
+			case *ast.IndexExpr:
+				e = x.X
+			case *ast.SelectorExpr:
+				e = x.X
+			case *ast.StarExpr:
+				e = x.X
+			case *ast.ParenExpr:
+				e = x.X
+			default:
+				return ""
+			}
+		}
+	}
+	for _, fn := range p.sortedFiles() {
+		for _, d := range p.files[fn].Decls {
+			fd, ok := d.(*ast.FuncDecl)
+			if !ok || fd.Body == nil {
+				continue
+			}
+			// names shadowed by parameters or locals are not tracked precisely: a local of the same name as a package
+			// variable would be reported too (fails closed)
+			ast.Inspect(fd.Body, func(n ast.Node) bool {
+				switch x := n.(type) {
+				case *ast.AssignStmt:
+					if x.Tok.String() == ":=" {
+						return true
+					}
+					for _, l := range x.Lhs {
+						if r := root(l); names[r] {
+							muts = append(muts, fd.Name.Name+": "+exprString2(l)+" "+x.Tok.String())
+						}
+					}
+				case *ast.IncDecStmt:
+					if r := root(x.X); names[r] {
+						muts = append(muts, fd.Name.Name+": "+exprString2(x.X)+x.Tok.String())
+					}
+				case *ast.CallExpr:
+					if exprString2(x.Fun) == "delete" && len(x.Args) > 0 {
+						if r := root(x.Args[0]); names[r] {
+							muts = append(muts, fd.Name.Name+": delete "+exprString2(x.Args[0]))
+						}
+					}
+				case *ast.UnaryExpr:
+					if x.Op.String() == "&" {
+						if r := root(x.X); names[r] {
+							muts = append(muts, fd.Name.Name+": &"+exprString2(x.X))
+						}
+					}
+				}
+				return true
+			})
+		}
+	}
+	sort.Strings(muts)
+	return
 }
